@@ -178,6 +178,11 @@ class DtdGen:
                 if have_id:
                     t = "CDATA"
                 have_id = True
+            if t == "enum" and not self.allow_known_findings and not self.class_names.ok(f"{e.name.split(':')[-1]}_{nm.split(':')[-1]}"):
+                # the enumeration becomes a class <Element>_<attribute>: identifiers that collide with another class after the
+                # naming conventions (element False -> FalseType, attribute type of it -> False_type) are the open known finding
+                # C07/class-identifiers-collide-after-naming-conventions (probe in vf/props/c07.py)
+                t = "CDATA"
             a = AttDef(nm, t)
             if t == "enum":
                 a.values = rng.sample(["draft", "published", "a", "b-1", "x.y", "1st" if False else "first", "UPPER", "class" if self.hostile else "klass", "None" if self.hostile else "none"], rng.randrange(2, 5))
